@@ -268,7 +268,7 @@ def stepT (s : Option T) (toks : List String) : Option T × String :=
               else none
             | none => none
           | _ => none
-        | _ => Driver.C09.applyTensorAdaptor names (tensorSource t) ad
+        | _ => Driver.C09.applyTensorAdaptorT t ad
       match built with
       | none => (s, "rejected")
       | some (_, src) =>
